@@ -15,12 +15,18 @@ package main
 //     and, for SCTP, with the packet's ports (the TC parser itself does not extract SCTP ports);
 //   - no NAT (pre-NAT == post-NAT destination), traffic is neither from nor to the host.
 //
+// Half of the states are compiled with a lowered split threshold (12-150 jumps) so that the policy runs as
+// a chain of tail-called sub-programs, as a very large policy does in production.
+//
 // Needs CGO_ENABLED=0 (felix/bpf/polprog pulls in the libbpf stubs): the C12 binary must be built with
 // "cgo": false once this file is present.
 
 import (
+	"errors"
 	"fmt"
 	"strings"
+
+	"github.com/projectcalico/calico/felix/bpf/asm"
 
 	"github.com/projectcalico/calico/felix/bpf/polprog"
 	"github.com/projectcalico/calico/felix/proto"
@@ -126,10 +132,15 @@ func newBPFLeg(c *harness.Case, st *State) (Leg, error) {
 	} else {
 		c.Count("bpf_leg_interpreter_only_states", 1)
 	}
+	lowered := c.R.Intn(2) == 0
 	for _, dir := range []refpolicy.Direction{refpolicy.Ingress, refpolicy.Egress} {
 		rules := bpfRules(st.Layout, dir)
 		for _, ipv := range []int{4, 6} {
 			o := polexec.Options{IPv6: ipv == 6, AllowDenyJumps: true, AllowIdx: 1, DenyIdx: 2, EntryIdx: 0, Stride: 4, FlowLogs: c.R.Intn(2) == 0}
+			if lowered {
+				// chained sub-programs: lower the split threshold (hook polprog.VerifWithMaxJumpsPerProgram)
+				o.MaxJumps = []int{12, 25, 60, 150}[c.R.Intn(4)]
+			}
 			p := &bpfProg{opts: o}
 			fds := polexec.FDs{IPSets: 3, State: 4, Static: 5, PolJump: 6}
 			if useKernel {
@@ -142,19 +153,41 @@ func newBPFLeg(c *harness.Case, st *State) (Leg, error) {
 				fds = k.FDs()
 			}
 			l.progs[[2]int{int(dir), ipv}] = p
-			progs, err := polexec.Compile(rules, ids, o, fds)
-			if err != nil {
-				l.Close()
-				return nil, fmt.Errorf("polprog compile: %w", err)
-			}
-			if p.k != nil {
-				if err := p.k.Load(progs, o); err != nil {
+			var progs []asm.Insns
+			for attempt := 0; ; attempt++ {
+				var err error
+				progs, err = polexec.Compile(rules, ids, p.opts, fds)
+				if err != nil {
 					l.Close()
-					return nil, fmt.Errorf("kernel load: %w", err)
+					return nil, fmt.Errorf("polprog compile: %w", err)
 				}
+				if len(progs) > 24 && p.opts.MaxJumps > 0 && attempt < 10 {
+					p.opts.MaxJumps *= 2 // more than jump.MaxSubPrograms: raise the threshold
+					continue
+				}
+				if p.k == nil {
+					break
+				}
+				err = p.k.Load(progs, p.opts)
+				if err == nil {
+					break
+				}
+				var le *polexec.LoadError
+				if errors.As(err, &le) && strings.Contains(le.VerifierLog, "unreachable insn") && p.opts.MaxJumps > 0 && attempt < 10 {
+					// C11's known finding (split inside dead code): not this check's business; move the split point
+					c.Count("bpf_leg_split_point_moved", 1)
+					p.opts.MaxJumps = p.opts.MaxJumps*2 + 7
+					continue
+				}
+				l.Close()
+				return nil, fmt.Errorf("kernel load: %w", err)
 			}
-			p.vm = polexec.NewVM(o, fds)
-			p.vm.Load(progs, o)
+			if len(progs) > 1 {
+				c.Count("bpf_leg_split_programs", 1)
+				c.Count("bpf_leg_sub_programs", int64(len(progs)))
+			}
+			p.vm = polexec.NewVM(p.opts, fds)
+			p.vm.Load(progs, p.opts)
 			for _, name := range sortedSetNames(st.Sets) {
 				for _, key := range polexec.IPSetEntries(ids[name], st.Sets[name], ipv == 6) {
 					if p.k != nil {
